@@ -344,13 +344,99 @@ static void vf_native(void)
                 canaries=[{"fn": f.name, "rx": r"for \(int i = 0, ntab", "rp": "for (int i = 1, ntab", "expect": r"VH_whereElement\.(postcondition|loop_invariant_base)"}])
 
 
+def unit_extremum(which, nmax=5):
+    """VH::maximum / VH::minimum (vec, flagAbs, aux, mode), Route C, both loops closed by invariants."""
+    mx = which == "maximum"
+    var = "max" if mx else "min"
+    cname = "VH_" + which
+    init = "-1.e30" if mx else "1.e30"
+    GE = (lambda a, b: "%s >= %s" % (a, b)) if mx else (lambda a, b: "%s <= %s" % (a, b))
+    pre = BOOL + """
+#define NMAX %d
+#define TEST 1.234e30
+#define FFFF_(v) ((v) > 1.0e30 || (v) != (v))
+static bool FFFF(double v) { return FFFF_(v); }
+#define ABS(a) (((a) < 0.) ? -(a) : (a))
+/* spec side */
+#define flagAux_ (aux_size != 0 && aux_size == vec_size)
+#define A_(k) (flagAbs ? ABS(W_vec[k]) : W_vec[k])
+#define Q_(k) (!FFFF_(W_vec[k]) && (!flagAux_ || (!FFFF_(W_aux[k]) && !(mode > 0 && W_aux[k] > A_(k)) && !(mode < 0 && W_aux[k] < A_(k)))))
+""" % nmax
+    contract = "\n".join([
+        "__CPROVER_requires(0 <= vec_size && vec_size <= NMAX && 0 <= aux_size && aux_size <= NMAX && vec == W_vec && aux == W_aux)",
+        "__CPROVER_assigns()",
+        "__CPROVER_ensures(vec_size != 0 || __CPROVER_return_value == TEST)",
+        # bounds every retained element ...
+        "__CPROVER_ensures(vec_size == 0 || %s)" % AND("(%d >= vec_size || !Q_(%d) || %s)" % (k, k, GE("__CPROVER_return_value", "A_(%d)" % k)) for k in range(nmax)),
+        # ... and is one of them (or the neutral start value when none is retained)
+        "__CPROVER_ensures(vec_size == 0 || __CPROVER_return_value == %s || (%s))" % (init, " || ".join("(%d < vec_size && Q_(%d) && __CPROVER_return_value == A_(%d))" % (k, k, k) for k in range(nmax))),
+    ])
+    inv = lambda i: "\n".join([
+        "__CPROVER_loop_invariant(%s)" % AND("(%d >= %s || !Q_(%d) || %s)" % (k, i, k, GE(var, "A_(%d)" % k)) for k in range(nmax)),
+        "__CPROVER_loop_invariant(%s == %s || (%s))" % (var, init, " || ".join("(%d < %s && Q_(%d) && %s == A_(%d))" % (k, i, k, var, k) for k in range(nmax))),
+    ])
+    loop1 = "\n".join([
+        "__CPROVER_assigns(vk, %s)" % var,
+        "__CPROVER_loop_invariant(0 <= vk && vk <= size && size == vec_size && !flagAux && !flagAux_)",
+        inv("vk"),
+        "__CPROVER_decreases(size - vk)",
+    ])
+    loop2 = "\n".join([
+        "__CPROVER_assigns(i, ptrv, ptra, val_vec, val_aux, %s)" % var,
+        "__CPROVER_loop_invariant(0 <= i && i <= size && size == vec_size && flagAux && flagAux_)",
+        # each pass reads the element of its own rank in both vectors
+        "__CPROVER_loop_invariant(ptrv == W_vec + i && ptra == W_aux + i)",
+        inv("i"),
+        "__CPROVER_decreases(size - i)",
+    ])
+    f = Fn("VectorHelper::" + which, "src/Basic/VectorHelper.cpp",
+           r"^double VectorHelper::%s\(const VectorDouble &vec, bool flagAbs, const VectorDouble& aux, int mode\)\s*$" % which,
+           csig="double %s(const double* vec, int vec_size, bool flagAbs, const double* aux, int aux_size, int mode)" % cname,
+           contract=contract, loops={1: loop1, 2: loop2}, nloops=2,
+           rewrites=[(r"vec\.empty\(\)", "(vec_size == 0)", 1), (r"\(int\) vec\.size\(\)", "vec_size", 1),
+                     (r"! aux\.empty\(\)", "(aux_size != 0)", 1), (r"\(int\) aux\.size\(\)", "aux_size", 1),
+                     (r"for \(auto v : vec\)\s*\n(\s*)\{", r"for (int vk = 0; vk < size; vk++)\n\1{ double v = vec[vk];", 1),
+                     (r"vec\.data\(\)", "vec", 1), (r"aux\.data\(\)", "aux", 1)])
+    h = """
+void vf_harness(void)
+{
+  vf_havoc_inputs();
+  %s(W_vec, W_n, W_flagAbs, W_aux, W_naux, W_mode);
+  VF_REACH();
+}
+""" % cname
+    native = r"""
+static void vf_native(void)
+{
+  if (!(0 <= W_n && W_n <= NMAX && 0 <= W_naux && W_naux <= NMAX)) exit(77);
+  double r = %s(W_vec, W_n, W_flagAbs, W_aux, W_naux, W_mode);
+  if (W_n == 0) { __CPROVER_assert(r == TEST, "empty vector: TEST"); return; }
+  int fa = W_naux != 0 && W_naux == W_n; int hit = (r == %s);
+  for (int k = 0; k < W_n; k++) {
+    double a = W_flagAbs ? ABS(W_vec[k]) : W_vec[k];
+    int q = !FFFF(W_vec[k]) && (!fa || (!FFFF(W_aux[k]) && !(W_mode > 0 && W_aux[k] > a) && !(W_mode < 0 && W_aux[k] < a)));
+    if (q) { __CPROVER_assert(%s, "the result bounds every retained element"); if (r == a) hit = 1; } }
+  __CPROVER_assert(hit, "the result is one of the retained elements");
+}
+""" % (cname, init, GE("r", "a"))
+    return Unit("C11.VH." + which, [f], prelude=pre, harness=h, native=native, pre_inputs=BOOL, defines={"NMAX": nmax},
+                inputs=[("double", "W_vec", "NMAX"), ("double", "W_aux", "NMAX"), ("int", "W_n"), ("int", "W_naux"), ("bool", "W_flagAbs"), ("int", "W_mode")],
+                enforce=cname, backends=("minisat", "cadical"), timeout=900, split=True, fallback_unwind=nmax + 2,
+                claim=("VH::%s(vec, flagAbs, aux, mode): TEST for an empty vector; otherwise the %s of (|.| of) the retained elements - defined, and when a "
+                       "conforming aux is given, aux defined and satisfying the comparison selected by mode - every element being examined once at its own rank "
+                       "in both vectors; %s when none is retained; nothing written; both loops closed by invariants (length <= %d)" % (which, which, init, nmax)),
+                assumptions=["at most %d elements (quantifier range)" % nmax, "const VectorDouble& -> (const double*, int); range-for rewritten to an index loop (must-fire rule)",
+                             "ties vec == aux are retained for mode != 0, as the code does (the documentation says 'vec > aux')"],
+                canaries=[{"fn": f.name, "rx": r"if \(FFFF\(v\)\) continue;", "rp": "", "expect": r"%s\.(postcondition|loop_invariant_step)" % cname}])
+
+
 def units(tier):
-    return [unit_dense_dims(), unit_sparse_dims(), unit_normmatrix(), unit_where("Minimum"), unit_where("Maximum"), unit_where_element()]
+    return [unit_dense_dims(), unit_sparse_dims(), unit_normmatrix(), unit_where("Minimum"), unit_where("Maximum"), unit_where_element(), unit_extremum("maximum"), unit_extremum("minimum")]
 
 
 META = {
     "level": "other",
-    "explanation": "(the two dimension units and the three VH::whereMinimum/whereMaximum/whereElement units are unbounded proofs, normMatrix.terms is a bounded stand-in, hence level 'other') Shape/index contracts of the Eigen-backed dense kernels and sparse product kernels for every shape; extremum-rank contracts of VH::whereMinimum / whereMaximum (loop invariant); numerical values, sparse storage, decompositions and thread-count independence are not decidable here.",
+    "explanation": "(the two dimension units and the five VH units (whereMinimum, whereMaximum, whereElement, maximum, minimum) are unbounded proofs, normMatrix.terms is a bounded stand-in, hence level 'other') Shape/index contracts of the Eigen-backed dense kernels and sparse product kernels for every shape; extremum-rank contracts of VH::whereMinimum / whereMaximum (loop invariant); numerical values, sparse storage, decompositions and thread-count independence are not decidable here.",
     "trusted_base": ["CBMC 6.11 C++ front end", "Eigen (numerics)", "stub classes"],
     "assumptions": [],
     "not_covered": ["values computed by Eigen/csparse", "csparse storage of MatrixSparse and its non-product methods", "Cholesky / eigen-decomposition", "thread-count independence (no thread model)",
@@ -358,7 +444,7 @@ META = {
 }
 MANIFEST = {
     "category": "other",
-    "text": "Dimension-typing contracts on the Eigen-backed kernels of AMatrixDense (18 methods) and on the Eigen-storage product kernels of MatrixSparse (9 methods): loop-free, hence for every matrix shape and both transposition flags (proved); bounded (3x3) term-coverage unit on the generic congruence product normMatrix; VH::whereMinimum / whereMaximum return the rank of the extremum of the defined elements and VH::whereElement the first rank of the target (loop invariants, proved); other values are not claimed.",
+    "text": "Dimension-typing contracts on the Eigen-backed kernels of AMatrixDense (18 methods) and on the Eigen-storage product kernels of MatrixSparse (9 methods): loop-free, hence for every matrix shape and both transposition flags (proved); bounded (3x3) term-coverage unit on the generic congruence product normMatrix; VH::whereMinimum / whereMaximum return the rank of the extremum of the defined elements VH::whereElement the first rank of the target, VH::maximum / VH::minimum (conditional forms) the extremum of the retained elements (loop invariants, proved); other values are not claimed.",
     "note": "Trusted: Eigen preconditions as documented; numerical results N/A.",
     "design_ref": "DESIGN.md 3 C11",
 }
